@@ -323,9 +323,9 @@ def main():
         json.dump(ev, f, indent=1, default=str)
     print(f"{pid} tier={tier} seed={seed} obligations={cov['obligations']} discharged={cov['discharged']} "
           f"evaluations={cov['evaluations']} violations={n_unlisted} wall={ev['wall_s']}s")
-    if internal_error:
-        sys.exit(2)
-    sys.exit(1 if n_unlisted else 0)
+    if n_unlisted:
+        sys.exit(1)
+    sys.exit(2 if internal_error else 0)
 
 
 if __name__ == "__main__":
